@@ -69,6 +69,17 @@ Definition stop_seen (k : nat) (e : list oevent) : bool :=
   existsb (fun x => match x with OStop k' => k' =? k | _ => false end) e.
 Definition got_normal_close (e : list oevent) : bool :=
   existsb (fun x => match x with OClosed CNormal => true | _ => false end) e.
+(* the client's read sequence ends with the normal close: a CNormal close frame,
+   and no data frame or further close frame is read after it *)
+Fixpoint normal_close_last (e : list oevent) : bool :=
+  match e with
+  | [] => false
+  | OClosed CNormal :: r =>
+      negb (existsb (fun x => match x with ORecv _ _ | OClosed _ => true | _ => false end) r)
+  | OClosed CProto :: _ => false
+  | _ :: r => normal_close_last r
+  end.
+
 Definition recv_chans (e : list oevent) : list nat :=
   flat_map (fun x => match x with ORecv c _ => [c] | _ => [] end) e.
 
@@ -116,7 +127,8 @@ Definition client_left_first (e : list oevent) : bool :=
    2 what the client received on a service channel is not a prefix of what the
      service emitted on it (order, duplication, invention)
    3 the client stayed and the service ended the stream, but the client did not
-     get every emitted message followed by the normal close
+     get every emitted message followed by the normal close (the close frame is
+     the last thing it reads: nothing is delivered after it)
    4 the client left first and a running request was not told to stop
    5 all services have ended and all clients are gone or closed, yet server
      goroutines of these sessions are still there (blocked)
@@ -135,7 +147,7 @@ Definition check_stream (dead : bool) (t : strace) : list nat :=
   if dead then [] else     (* a dead process shows nothing further: clause 1 reports it *)
   (if negb (left_in e) && service_ended e then
      clause 3 (forallb (fun c => same_bag (received_on c e) (emitted_on c e)) (handed_out e) &&
-               got_normal_close e)
+               normal_close_last e)
    else []) ++
   (if client_left_first e then
      clause 4 (forallb (fun k => stop_seen k e) (seq 0 (length (handed_out e))))
